@@ -224,6 +224,14 @@ class C09(PropBase):
                                                          "vw0.VwPage[vw0.VwSame]", "list[typing.Iterator[vw0.VwSame]]", "dict[str, vw0.VwPage[int]]", "vw0.VwFeed",
                                                          "collections.abc.KeysView[str]", "typing.Generator[int, None, None]", "vw0.VwPrivTree", "list[vw0.VwPrivTree]", "vw0.VwPrivPlain", "vw0.VwPrivTree",
                                                          "vw0.VwNestNS.VwNode", "vw0.VwNestNS.VwDeep.VwItem", "vw0.VwNestNS.VwNode"])})
+        if rng.random() < 0.3:
+            # one qualified scalar (Final[int], ClassVar[str]) at several members of one class: each occurrence is a
+            # member with a full node of its own (a scalar closes no cycle)
+            world["modules"][0]["decls"].append({"d": "raw", "n": "VwLimits", "src": (
+                "@dataclasses.dataclass\nclass VwLimits:\n    low: typing.Final[int] = 0\n    high: typing.Final[int] = 10\n"
+                "    unit: typing.ClassVar[str] = 'K'\n    label: typing.ClassVar[str] = 'temp'\n    step: typing.Final[int] = 1\n"
+                "class VwLimitsPlain:\n    lo: typing.Final[float]\n    hi: typing.Final[float]\n    def __init__(self, lo: float = 0.0, hi: float = 1.0):\n        self.lo, self.hi = lo, hi\n")})
+            roots.append({"k": "raw", "src": rng.choice(["vw0.VwLimits", "list[vw0.VwLimits]", "vw0.VwLimitsPlain", "dict[str, vw0.VwLimits]"])})
         if len(world["modules"]) >= 2 and rng.random() < 0.35:
             # a member inherited from a base class in another module, written as text there: it means what the
             # base's module means by it (both modules have a VwSame of their own)
